@@ -307,7 +307,7 @@ def build(ctx):
     C = ctx
     t = P.HEADER
     t += P.peer_types(C) + P.event_types(C)
-    t += P.PEER_ID_AXIOMS + P.CONNECTION_STANDIN + P.BROADCAST_STANDIN
+    t += P.STD_SPECS + P.PEER_ID_AXIOMS + P.CONNECTION_STANDIN + P.BROADCAST_STANDIN
     # struct with the ghost close log (X7) and the broadcast stand-in (X5)
     t += C.item(CM, 'struct ActivePeersInner', rewrites=[
         ('X5', 'broadcast::Sender<PeerEvent>', 'Sender', 1),
@@ -482,6 +482,7 @@ impl JoinSet { #[verifier::external_body] pub async fn shutdown(&mut self) { uni
     ensures
         final(active_peers).0.view() =~~= rm_sid_spec(old(active_peers).0.view(), connection.peer, connection.sid, reason_of(close_reason)), // @OBL InboundRequestHandler::start::tail::removes_own_entry_only [C04,C05,C09] when a connection's handler exits it removes exactly its own entry (matched by stable id) with the mapped reason; a replaced connection's exit changes nothing
 """)
+    t += C.helpers_here()
     t += P.FOOTER
     return t
 
